@@ -558,9 +558,10 @@ class DocumentationAggregator(CMakeListener):
                 break
 
         cleaned_lines = []
-        for line in lines:
-            # Remove global indent from left side
-            cleaned_line = line[num_spaces:]
+        for index, line in enumerate(lines):
+            # Remove global indent from left side, the first line starts at
+            # the opening "#[[[" (the token does not include the indent)
+            cleaned_line = line[num_spaces:] if index > 0 else line
             # Remove all hash marks and brackets from the left side only
             cleaned_line = cleaned_line.lstrip("#[]")
             # String is not empty and first character is a space
